@@ -52,7 +52,7 @@ theorem adopt_not_duplicate (s s1 : Sys) (jo : JobObj) (rj : Job) (tasks : List 
     (idx : PIndex) (retry : Int) (p : PodObj) (t : Task)
     (hc : apiCreatePod s jo idx retry = (s1, .exists))
     (hp : findPod s1.podCache (taskName jo.name idx.hash retry) = some p)
-    (hown : p.ownerUid = some jo.uid) (ht : podTask p = some t) :
+    (hown : p.ownerUid = some jo.uid) (ht : podTask s.clock p = some t) :
     syncCreateTask s jo rj tasks idx retry = (s1, some (rj, tasks ++ [t])) ∧ s1.pods = s.pods := by
   refine ⟨?_, create_exists_creates_nothing s s1 jo idx retry hc⟩
   unfold syncCreateTask
@@ -76,15 +76,15 @@ finds the task), so the hypothesis on the pod cache only concerns cached pods of
 theorem existing_task_never_lost (s : Sys) (jo : JobObj) (ref : TaskRef) (p : PodObj)
     (hfin : ref.finishTimestamp = none) (hp : findPod s.pods ref.name = some p)
     (hown : p.ownerUid = some jo.uid)
-    (hcache : ∀ q, findPod s.podCache ref.name = some q → q.ownerUid = some jo.uid → (podTask q).isSome)
-    (ht : (podTask p).isSome) :
+    (hcache : ∀ q, findPod s.podCache ref.name = some q → q.ownerUid = some jo.uid → (podTask s.clock q).isSome)
+    (ht : (podTask s.clock p).isSome) :
     (getTaskForRef s jo ref).isSome := by
   unfold getTaskForRef liveGetTask isControlledByJob
   cases hc : findPod s.podCache ref.name with
   | some q =>
     by_cases hqo : q.ownerUid = some jo.uid
     · have hq := hcache q hc hqo
-      cases hpt : podTask q with
+      cases hpt : podTask s.clock q with
       | none => rw [hpt] at hq; cases hq
       | some t => simp [hfin, hpt, hqo]
     · simpa [hqo, hfin, hp, hown] using ht
@@ -96,9 +96,9 @@ is not controlled by the Job is never read as a task. -/
 theorem read_task_is_owned (s : Sys) (jo : JobObj) (ref : TaskRef) (t : Task)
     (h : getTaskForRef s jo ref = some t) :
     ∃ p, (findPod s.podCache ref.name = some p ∨ findPod s.pods ref.name = some p) ∧
-      p.ownerUid = some jo.uid ∧ podTask p = some t := by
+      p.ownerUid = some jo.uid ∧ podTask s.clock p = some t := by
   have live : ∀ t, liveGetTask s jo ref.name = some t →
-      ∃ p, findPod s.pods ref.name = some p ∧ p.ownerUid = some jo.uid ∧ podTask p = some t := by
+      ∃ p, findPod s.pods ref.name = some p ∧ p.ownerUid = some jo.uid ∧ podTask s.clock p = some t := by
     intro t h
     unfold liveGetTask isControlledByJob at h
     cases hp : findPod s.pods ref.name with
@@ -121,7 +121,7 @@ theorem read_task_is_owned (s : Sys) (jo : JobObj) (ref : TaskRef) (t : Task)
     simp only [hc] at h
     by_cases ho : q.ownerUid = some jo.uid
     · simp only [ho, decide_true, Bool.not_true, Bool.false_eq_true, ↓reduceIte] at h
-      cases hq : podTask q with
+      cases hq : podTask s.clock q with
       | none => simp [hq] at h
       | some t' =>
         simp only [hq] at h
